@@ -11,7 +11,7 @@ directory order seen by the clean-up globs of either run, and every truncation p
 list (`.params` is saved by the first two events), the resumed run completes and every final file equals that of the
 uninterrupted run.
 -/
-import IsoVerif.Lemmas.ResumeRun
+import IsoVerif.Lemmas.ResumeHistory
 
 namespace IsoVerif.Props.C07
 open IsoVerif.Model.Resume IsoVerif.Lemmas.Resume
@@ -39,11 +39,26 @@ theorem J_afterParams {cfg : Cfg} {fs : FS} (h : J0 cfg fs) : J cfg (afterParams
 theorem afterParams_other (fs : FS) {p : Path} (h : p ≠ .params) : afterParams fs p = fs p := by
   simp [afterParams, apply, Ev.path, Ev.val, set_other _ _ h]
 
+theorem lockList_nil_processed {cfg : Cfg} {fs : FS} (h : lockList cfg fs = []) :
+    ∀ c ∈ cfg.chrs, fs.has (.processed c) = false := by
+  intro c hc
+  cases hq : fs.has (.processed c) with
+  | false => rfl
+  | true =>
+    have : Path.processed c ∈ lockList cfg fs := by
+      simp only [lockList, List.mem_append, List.mem_map, List.mem_filter]; exact Or.inr ⟨c, ⟨hc, hq⟩, rfl⟩
+    rw [h] at this; simp at this
+
+theorem lockList_empty (cfg : Cfg) : lockList cfg FS.empty = [] := by
+  simp [lockList]
+
 /-- shape of every run of the repaired code from a state in which the locks vouch only for complete files
-    (and, when resuming, `.params` is intact): it completes, its events are the two `.params` events followed by
-    events along which the invariant `J` holds at every prefix, and all final files end up complete and correct -/
+    (a fresh run: after its lock-removal step; a resumed run: `.params` intact; with `--read_assignments`: the save
+    files complete): it completes, its events are the two `.params` events followed by events along which the
+    invariant `J` holds at every prefix, and all final files end up complete and correct -/
 theorem run_shape {cfg : Cfg} (wf : WF cfg) (ord : List Path) (hord : ord.Nodup) (rs : Bool) {fs : FS}
-    (h : J0 cfg fs) (hp : rs = true → fs.good .params = true) :
+    (h : J0 cfg fs) (hp : rs = true → fs.good .params = true) (hcl : rs = false → lockList cfg fs = [])
+    (hsv : cfg.fromSaves = true → SavesOK cfg fs) :
     ∃ rest : List Ev,
       (run fixed cfg ord rs fs).evs = .create .params :: .commit .params .good :: rest ∧
       (run fixed cfg ord rs fs).ok = true ∧
@@ -52,10 +67,17 @@ theorem run_shape {cfg : Cfg} (wf : WF cfg) (ord : List Path) (hord : ord.Nodup)
   have hj := J_afterParams h
   have hlk : (afterParams fs).has .lock = fs.has .lock := by
     simp only [FS.has]; rw [afterParams_other fs (by simp)]
+  have hrun : run fixed cfg ord rs fs = runStages (stages fixed cfg ord rs (rs && fs.has .lock)) fs := by
+    cases rs with
+    | true => simpa using run_resume_eq cfg ord fs
+    | false => simpa using run_fresh_eq cfg ord (hcl rfl)
   obtain ⟨hg, hfin⟩ := rest_run wf ord hord rs (rs && fs.has .lock) hj
     (by intro e; simp only [Bool.and_eq_true] at e; exact e.1)
     (by intro e; simp only [Bool.and_eq_true] at e; rw [hlk]; exact e.2)
-    (by intro e e'; rw [hlk]; subst e'; simpa using e)
+    (by intro e _ e'; rw [hlk]; subst e'; simpa using e)
+    (fun e => savesOK_frame (hsv e) (afterParams_other fs (by simp)) (fun _ => afterParams_other fs (by simp))
+      (fun _ => afterParams_other fs (by simp)))
+    (by intro _ e c hc; rw [FS.has, afterParams_other fs (by simp)]; exact lockList_nil_processed (hcl e) c hc)
   have hck : ChecksOK (paramsStage rs fs) fs := by
     unfold paramsStage
     cases rs with
@@ -66,54 +88,149 @@ theorem run_shape {cfg : Cfg} (wf : WF cfg) (ord : List Path) (hord : ord.Nodup)
   obtain ⟨hok0, hevs0⟩ := runActs_of_checks hck
   have hfs0 : (runActs (paramsStage rs fs) fs).fs = afterParams fs := by
     rw [runActs_fs, hevs0, hev]; rfl
-  refine ⟨(runStages (restStages cfg ord rs (rs && fs.has .lock)) (afterParams fs)).evs, ?_, ?_, hg.2, ?_⟩
-  · simp only [run, stages_eq, runStages, hok0, if_true, hevs0, hev, hfs0]; rfl
-  · simp only [run, stages_eq, runStages, hok0, if_true, hfs0]; exact hg.1
-  · simp only [run, stages_eq, runStages, hok0, if_true, hfs0]; exact hfin
+  refine ⟨(runStages (restStages cfg ord rs ((rs && fs.has .lock) || cfg.fromSaves)) (afterParams fs)).evs, ?_, ?_, hg.2, ?_⟩
+  · simp only [hrun, stages_eq, runStages, hok0, if_true, hevs0, hev, hfs0]; rfl
+  · simp only [hrun, stages_eq, runStages, hok0, if_true, hfs0]; exact hg.1
+  · simp only [hrun, stages_eq, runStages, hok0, if_true, hfs0]; exact hfin
 
 /-- **crash consistency**: whenever the (first or a resumed) run is killed after its parameters were saved, every lock
     file that exists vouches only for complete, correct files, and `.params` is intact -/
 theorem crash_state_invariant {cfg : Cfg} (wf : WF cfg) (ord : List Path) (hord : ord.Nodup) (rs : Bool) {fs : FS}
-    (h : J0 cfg fs) (hp : rs = true → fs.good .params = true) (k : Nat) (hk : 2 ≤ k) :
+    (h : J0 cfg fs) (hp : rs = true → fs.good .params = true) (hcl : rs = false → lockList cfg fs = [])
+    (hsv : cfg.fromSaves = true → SavesOK cfg fs) (k : Nat) (hk : 2 ≤ k) :
     J cfg (applyAll fs ((run fixed cfg ord rs fs).evs.take k)) := by
-  obtain ⟨rest, hevs, _, hall, _⟩ := run_shape wf ord hord rs h hp
+  obtain ⟨rest, hevs, _, hall, _⟩ := run_shape wf ord hord rs h hp hcl hsv
   obtain ⟨k', rfl⟩ : ∃ k', k = k' + 2 := ⟨k - 2, by omega⟩
   rw [hevs]
   simp only [List.take_succ_cons, applyAll]
   exact AllP_take hall k'
 
-/-- **full-strength property**: kill the first run after any `k ≥ 2` events, resume: the resumed run completes and
-    every final file equals that of the uninterrupted run -/
-theorem resume_correct {cfg : Cfg} (wf : WF cfg) (ord ord' : List Path) (hord : ord.Nodup) (hord' : ord'.Nodup)
-    (k : Nat) (hk : 2 ≤ k) : verdict fixed cfg ord ord' k = .equal := by
-  have hJ : J cfg (crashFS fixed cfg ord k) :=
-    crash_state_invariant wf ord hord false (J0_empty cfg) (by simp) k hk
-  obtain ⟨_, _, hok, _, hfin⟩ := run_shape wf ord' hord' true hJ.2 (fun _ => hJ.1)
-  obtain ⟨_, _, _, _, hfin0⟩ := run_shape wf ord hord false (J0_empty cfg) (by simp)
-  simp only [verdict, hok, Bool.not_true, Bool.false_eq_true, if_false]
-  have : sameFinals cfg (run fixed cfg ord' true (crashFS fixed cfg ord k)).fs (run fixed cfg ord false FS.empty).fs = true := by
+/-! ### runs that do not start in an empty folder -/
+
+/-- `--read_assignments`: the save files are complete, and a `_collected` lock found next to them vouches for complete
+    files (they were written by a run that finished read collection) -/
+def SavesConsistent (cfg : Cfg) (fs : FS) : Prop :=
+  SavesOK cfg fs ∧ ∀ c ∈ cfg.chrs, fs.has (.collected c) = true → fs.good (.groups c) = true ∧ fs.good (.bamstat c) = true
+
+theorem take_length_add {α : Type} (a b : List α) (n : Nat) : (a ++ b).take (a.length + n) = a ++ b.take n := by
+  induction a with
+  | nil => simp
+  | cons x a ih => simp only [List.cons_append, List.length_cons]; rw [Nat.add_right_comm, List.take_succ_cons, ih]
+
+/-- after the lock-removal step of a fresh run no lock vouches for anything it should not -/
+theorem J0_cleaned {cfg : Cfg} (fs : FS) (hs : cfg.fromSaves = true → SavesConsistent cfg fs) : J0 cfg (cleaned cfg fs) := by
+  intro l hl d hd
+  rcases guarded_lock_cases hd with rfl | rfl | ⟨c, hc, rfl⟩ | ⟨c, hc, rfl⟩
+  · cases hm : cfg.fromSaves with
+    | false => rw [(cleaned_bam_locks hm fs).1] at hl; exact absurd hl (by simp)
+    | true =>
+      have hsv := (hs hm).1
+      have hdl := guarded_not_lock hd
+      rw [FS.good, cleaned_other cfg fs hdl]
+      simp only [guarded, List.mem_cons, List.mem_flatMap, List.not_mem_nil, or_false] at hd
+      rcases hd with rfl | ⟨c, hc, rfl | rfl⟩
+      · exact hsv.1
+      · exact (hsv.2 c hc).1
+      · exact (hsv.2 c hc).2
+  · rw [cleaned_rgLock] at hl; exact absurd hl (by simp)
+  · cases hm : cfg.fromSaves with
+    | false => rw [(cleaned_bam_locks hm fs).2 c hc] at hl; exact absurd hl (by simp)
+    | true =>
+      have hcons := hs hm
+      have hdl := guarded_not_lock hd
+      rw [FS.good, cleaned_other cfg fs hdl]
+      have hcol := cleaned_has_le cfg fs _ hl
+      simp only [guarded, hc, if_true, List.mem_cons, List.not_mem_nil, or_false] at hd
+      rcases hd with rfl | rfl | rfl
+      · exact (hcons.1.2 c hc).2
+      · exact (hcons.2 c hc hcol).1
+      · exact (hcons.2 c hc hcol).2
+  · rw [cleaned_processed fs hc] at hl; exact absurd hl (by simp)
+
+/-- **history clause**: the run is started on *any* file system `fs0` — whatever an earlier run with other options or
+    inputs left in the output folder, killed at any point — (with `--read_assignments`: on complete save files plus
+    arbitrary leftovers), killed after any `k` events once its own parameters are saved (the lock-removal step comes
+    first: `k ≥ |locks found| + 2`), and resumed: the resumed run completes and every final file equals that of the
+    uninterrupted run on `fs0` -/
+theorem resume_correct_from {cfg : Cfg} (wf : WF cfg) (ord ord' : List Path) (hord : ord.Nodup) (hord' : ord'.Nodup)
+    (fs0 : FS) (hs : cfg.fromSaves = true → SavesConsistent cfg fs0) (k : Nat)
+    (hk : (lockList cfg fs0).length + 2 ≤ k) : verdictFrom fixed cfg ord ord' fs0 k = .equal := by
+  obtain ⟨hevs, hok0, hfs0⟩ := run_split wf ord fs0
+  have hJ0 := J0_cleaned fs0 hs
+  have hcl : lockList cfg (cleaned cfg fs0) = [] := lockList_cleaned cfg fs0
+  have hsv1 : cfg.fromSaves = true → SavesOK cfg (cleaned cfg fs0) := fun e =>
+    savesOK_frame (hs e).1 (cleaned_other cfg fs0 rfl) (fun _ => cleaned_other cfg fs0 rfl) (fun _ => cleaned_other cfg fs0 rfl)
+  obtain ⟨k', rfl⟩ : ∃ k', k = (lockList cfg fs0).length + k' := ⟨k - (lockList cfg fs0).length, by omega⟩
+  have hk' : 2 ≤ k' := by omega
+  -- the crash state is a crash state of the run on the cleaned folder
+  have hcrash : crashFSFrom fixed cfg ord fs0 ((lockList cfg fs0).length + k') =
+      applyAll (cleaned cfg fs0) ((run fixed cfg ord false (cleaned cfg fs0)).evs.take k') := by
+    simp only [crashFSFrom, cleanEventsFrom, hevs]
+    have := take_length_add ((lockList cfg fs0).map Ev.remove) (run fixed cfg ord false (cleaned cfg fs0)).evs k'
+    rw [List.length_map] at this
+    rw [this, applyAll_append]; rfl
+  have hJ : J cfg (crashFSFrom fixed cfg ord fs0 ((lockList cfg fs0).length + k')) := by
+    rw [hcrash]
+    exact crash_state_invariant wf ord hord false hJ0 (by simp) (fun _ => hcl) hsv1 k' hk'
+  have hsvc : cfg.fromSaves = true → SavesOK cfg (crashFSFrom fixed cfg ord fs0 ((lockList cfg fs0).length + k')) := by
+    intro e
+    rw [hcrash]
+    have hunt : ∀ p, notSaves p = false →
+        applyAll (cleaned cfg fs0) ((run fixed cfg ord false (cleaned cfg fs0)).evs.take k') p = cleaned cfg fs0 p := by
+      intro p hp
+      apply applyAll_untouched
+      intro ev hev hpe
+      have := saves_untouched wf e ord false (false && (cleaned cfg fs0).has .lock) (cleaned cfg fs0) ev (List.mem_of_mem_take hev)
+      rw [hpe, hp] at this; exact absurd this (by simp)
+    exact savesOK_frame (hsv1 e) (hunt _ rfl) (fun _ => hunt _ rfl) (fun _ => hunt _ rfl)
+  obtain ⟨_, _, hok, _, hfin⟩ := run_shape wf ord' hord' true hJ.2 (fun _ => hJ.1) (by simp) hsvc
+  obtain ⟨_, _, _, _, hfin1⟩ := run_shape wf ord hord false hJ0 (by simp) (fun _ => hcl) hsv1
+  simp only [verdictFrom, hok, Bool.not_true, Bool.false_eq_true, if_false]
+  have : sameFinals cfg (run fixed cfg ord' true (crashFSFrom fixed cfg ord fs0 ((lockList cfg fs0).length + k'))).fs
+      (run fixed cfg ord false fs0).fs = true := by
     simp only [sameFinals, List.all_eq_true, beq_iff_eq]
     intro p hp
     have h1 := hfin p hp
-    have h2 := hfin0 p hp
+    have h2 := hfin1 p hp
     simp only [FS.good, beq_iff_eq] at h1 h2
-    rw [h1, h2]
+    rw [h1, hfs0, h2]
   simp [this]
 
+/-- the output folder already holds the remains of an earlier (killed or finished) run with other options: any leftovers -/
+theorem resume_correct_dirty_folder {cfg : Cfg} (wf : WF cfg) (hm : cfg.fromSaves = false) (ord ord' : List Path)
+    (hord : ord.Nodup) (hord' : ord'.Nodup) (fs0 : FS) (k : Nat) (hk : (lockList cfg fs0).length + 2 ≤ k) :
+    verdictFrom fixed cfg ord ord' fs0 k = .equal :=
+  resume_correct_from wf ord ord' hord hord' fs0 (fun e => by rw [hm] at e; exact absurd e (by simp)) k hk
+
+/-- `--read_assignments`: run from kept save files (complete; any stale `_processed` locks, statistics files or other
+    leftovers next to them), kill, resume -/
+theorem resume_correct_read_assignments {cfg : Cfg} (wf : WF cfg) (hm : cfg.fromSaves = true) (ord ord' : List Path)
+    (hord : ord.Nodup) (hord' : ord'.Nodup) (fs0 : FS) (hs : SavesConsistent cfg fs0) (k : Nat)
+    (hk : (lockList cfg fs0).length + 2 ≤ k) : verdictFrom fixed cfg ord ord' fs0 k = .equal :=
+  resume_correct_from wf ord ord' hord hord' fs0 (fun _ => hs) k hk
+
+/-- **full-strength property** (fresh output folder, BAM input): kill the first run after any `k ≥ 2` events, resume:
+    the resumed run completes and every final file equals that of the uninterrupted run -/
+theorem resume_correct {cfg : Cfg} (wf : WF cfg) (hm : cfg.fromSaves = false) (ord ord' : List Path) (hord : ord.Nodup)
+    (hord' : ord'.Nodup) (k : Nat) (hk : 2 ≤ k) : verdict fixed cfg ord ord' k = .equal := by
+  have := resume_correct_dirty_folder wf hm ord ord' hord hord' FS.empty k (by rw [lockList_empty]; simpa using hk)
+  exact this
+
 /-- safety half: a resumed run never exits successfully with different, truncated or missing results -/
-theorem resume_never_silently_wrong {cfg : Cfg} (wf : WF cfg) (ord ord' : List Path) (hord : ord.Nodup)
-    (hord' : ord'.Nodup) (k : Nat) (hk : 2 ≤ k) : verdict fixed cfg ord ord' k ≠ .diff := by
-  rw [resume_correct wf ord ord' hord hord' k hk]; decide
+theorem resume_never_silently_wrong {cfg : Cfg} (wf : WF cfg) (hm : cfg.fromSaves = false) (ord ord' : List Path)
+    (hord : ord.Nodup) (hord' : ord'.Nodup) (k : Nat) (hk : 2 ≤ k) : verdict fixed cfg ord ord' k ≠ .diff := by
+  rw [resume_correct wf hm ord ord' hord hord' k hk]; decide
 
 /-- liveness half: the resumed run completes -/
-theorem resume_completes {cfg : Cfg} (wf : WF cfg) (ord ord' : List Path) (hord : ord.Nodup)
-    (hord' : ord'.Nodup) (k : Nat) (hk : 2 ≤ k) : verdict fixed cfg ord ord' k ≠ .fail := by
-  rw [resume_correct wf ord ord' hord hord' k hk]; decide
+theorem resume_completes {cfg : Cfg} (wf : WF cfg) (hm : cfg.fromSaves = false) (ord ord' : List Path)
+    (hord : ord.Nodup) (hord' : ord'.Nodup) (k : Nat) (hk : 2 ≤ k) : verdict fixed cfg ord ord' k ≠ .fail := by
+  rw [resume_correct wf hm ord ord' hord hord' k hk]; decide
 
 /-- the uninterrupted run itself completes with complete final files -/
-theorem clean_run_completes {cfg : Cfg} (wf : WF cfg) (ord : List Path) (hord : ord.Nodup) :
+theorem clean_run_completes {cfg : Cfg} (wf : WF cfg) (hm : cfg.fromSaves = false) (ord : List Path) (hord : ord.Nodup) :
     (run fixed cfg ord false FS.empty).ok = true ∧ FinOK cfg (run fixed cfg ord false FS.empty).fs := by
-  obtain ⟨_, _, hok, _, hfin⟩ := run_shape wf ord hord false (J0_empty cfg) (by simp)
+  obtain ⟨_, _, hok, _, hfin⟩ := run_shape wf ord hord false (J0_empty cfg) (by simp) (fun _ => lockList_empty cfg)
+    (fun e => by rw [hm] at e; exact absurd e (by simp))
   exact ⟨hok, hfin⟩
 
 /-! ### any number of interruptions -/
@@ -124,28 +241,30 @@ def afterCrashes (cfg : Cfg) : List (List Path × Nat) → Bool → FS → FS
   | [], _, fs => fs
   | (ord, k) :: rest, rs, fs => afterCrashes cfg rest true (applyAll fs ((run fixed cfg ord rs fs).evs.take k))
 
-theorem afterCrashes_J {cfg : Cfg} (wf : WF cfg) (chain : List (List Path × Nat))
+theorem afterCrashes_J {cfg : Cfg} (wf : WF cfg) (hm : cfg.fromSaves = false) (chain : List (List Path × Nat))
     (hc : ∀ x ∈ chain, x.1.Nodup ∧ 2 ≤ x.2) (rs : Bool) {fs : FS} (h : J0 cfg fs)
-    (hp : rs = true → fs.good .params = true) (hne : chain ≠ []) : J cfg (afterCrashes cfg chain rs fs) := by
+    (hp : rs = true → fs.good .params = true) (hcl : rs = false → lockList cfg fs = []) (hne : chain ≠ []) :
+    J cfg (afterCrashes cfg chain rs fs) := by
   induction chain generalizing rs fs with
   | nil => exact absurd rfl hne
   | cons x chain ih =>
     obtain ⟨ord, k⟩ := x
     have hx := hc (ord, k) (by simp)
-    have hJ := crash_state_invariant wf ord hx.1 rs h hp k hx.2
+    have hJ := crash_state_invariant wf ord hx.1 rs h hp hcl (fun e => by rw [hm] at e; exact absurd e (by simp)) k hx.2
     simp only [afterCrashes]
     cases chain with
     | nil => exact hJ
-    | cons y chain => exact ih (fun z hz => hc z (by simp [hz])) true hJ.2 (fun _ => hJ.1) (by simp)
+    | cons y chain => exact ih (fun z hz => hc z (by simp [hz])) true hJ.2 (fun _ => hJ.1) (by simp) (by simp)
 
 /-- a run interrupted any number of times (each time after its parameters were saved / re-saved) and finally resumed
     without interruption completes with all final files complete and correct -/
-theorem resume_correct_after_repeated_crashes {cfg : Cfg} (wf : WF cfg) (chain : List (List Path × Nat))
+theorem resume_correct_after_repeated_crashes {cfg : Cfg} (wf : WF cfg) (hm : cfg.fromSaves = false) (chain : List (List Path × Nat))
     (hc : ∀ x ∈ chain, x.1.Nodup ∧ 2 ≤ x.2) (hne : chain ≠ []) (ord : List Path) (hord : ord.Nodup) :
     (run fixed cfg ord true (afterCrashes cfg chain false FS.empty)).ok = true ∧
       FinOK cfg (run fixed cfg ord true (afterCrashes cfg chain false FS.empty)).fs := by
-  have hJ := afterCrashes_J wf chain hc false (J0_empty cfg) (by simp) hne
-  obtain ⟨_, _, hok, _, hfin⟩ := run_shape wf ord hord true hJ.2 (fun _ => hJ.1)
+  have hJ := afterCrashes_J wf hm chain hc false (J0_empty cfg) (by simp) (fun _ => lockList_empty cfg) hne
+  obtain ⟨_, _, hok, _, hfin⟩ := run_shape wf ord hord true hJ.2 (fun _ => hJ.1) (by simp)
+    (fun e => by rw [hm] at e; exact absurd e (by simp))
   exact ⟨hok, hfin⟩
 
 
@@ -155,7 +274,8 @@ theorem resume_correct_after_repeated_crashes {cfg : Cfg} (wf : WF cfg) (chain :
 observed on the pinned tree).  Each variant switches exactly one repair off. -/
 
 /-- one chromosome, annotation, no read groups, unaligned reads present -/
-def cfg1 : Cfg := { chrs := [0], mchrs := [0], bchrs := [0], genedb := true, rg := .none, keepTmp := false, unmapped := true }
+def cfg1 : Cfg := { chrs := [0], mchrs := [0], bchrs := [0], genedb := true, rg := .none, keepTmp := false, unmapped := true,
+                    fromSaves := false }
 
 def ord1 : List Path := [.info, .multimap 0, .lock, .save 0, .processed 0, .bamstat 0, .readStat 0, .collected 0, .groups 0,
                          .trStat 0, .rgLock]
@@ -203,11 +323,57 @@ theorem pinned_witness :
     verdict pinned cfg1 ord1 ord1 16 = .diff ∧ verdict pinned cfg1 ord1 ord1 10 = .fail ∧
     verdict pinned cfg1 ord1 ord1 55 = .fail := by decide +kernel
 
+/-! ### history clauses: witnesses for the two behaviours that violate them -/
+
+def fsOf (l : List (Path × Tok)) : FS := l.foldl (fun fs x => fs.set x.1 (some x.2)) FS.empty
+
+/-- what an earlier run with other options left when it was killed during read collection (after chromosome 0 got its
+    `_collected` lock): complete files with other content -/
+def leftover1 : FS := fsOf [(.params, .stale), (.rgLock, .stale), (.save 0, .stale), (.groups 0, .stale),
+                            (.bamstat 0, .stale), (.collected 0, .stale)]
+
+/-- the tree before `fix:` 428ba30: stale locks are dropped only inside collect_reads, after `.params` was saved -/
+def staleLocksKeptBuggy : Variant := { fixed with cleanBeforeParams := false }
+
+/-- a fresh run over `leftover1` killed right after it saved its parameters: the resumed run trusts the earlier run's
+    `_collected` lock and exits successfully with results computed from the earlier run's data -/
+theorem resume_never_silently_wrong_dirty_folder_witness :
+    (cleanEventsFrom staleLocksKeptBuggy cfg1 ord1 leftover1)[1]? = some (.commit .params .good) ∧
+    verdictFrom staleLocksKeptBuggy cfg1 ord1 ord1 leftover1 2 = .diff := by decide +kernel
+
+/-- `--read_assignments` on the toy configuration -/
+def cfgS : Cfg := { cfg1 with fromSaves := true, unmapped := false }
+
+/-- complete save files of a run that finished read collection -/
+def saves1 : FS := fsOf [(.info, .good), (.multimap 0, .good), (.save 0, .good), (.lock, .good), (.collected 0, .good),
+                         (.groups 0, .good), (.bamstat 0, .good)]
+
+/-- the same with the `_processed` lock and statistics files of an earlier killed run next to them -/
+def saves1Stale : FS := fsOf [(.info, .good), (.multimap 0, .good), (.save 0, .good), (.lock, .good), (.collected 0, .good),
+                              (.groups 0, .good), (.bamstat 0, .good), (.processed 0, .stale), (.readStat 0, .stale),
+                              (.trStat 0, .stale)]
+
+/-- the `_processed` locks looked for under the sample's own prefix instead of next to the save files (seeded change) -/
+def dropWrongPrefixBuggy : Variant := { fixed with dropAtDumpPrefix := false }
+
+/-- `--read_assignments`, killed after the first per-chromosome file was merged away: the `_processed` lock is still
+    there, the resumed run raises — it can never complete -/
+theorem resume_completes_read_assignments_witness :
+    (cleanEventsFrom dropWrongPrefixBuggy cfgS ord1 saves1)[41]? = some (.remove (.part .gtf 0)) ∧
+    verdictFrom dropWrongPrefixBuggy cfgS ord1 ord1 saves1 42 = .fail := by decide +kernel
+
+/-- `--read_assignments` on save files carrying a stale `_processed` lock, before 428ba30: killed during model
+    construction, the resumed run skips the chromosome and exits successfully with truncated results (k = 31), or
+    raises (k = 2) -/
+theorem resume_never_silently_wrong_stale_processed_witness :
+    verdictFrom staleLocksKeptBuggy cfgS ord1 ord1 saves1Stale 31 = .diff ∧
+    verdictFrom staleLocksKeptBuggy cfgS ord1 ord1 saves1Stale 2 = .fail := by decide +kernel
+
 /-! ### non-vacuity -/
 
 /-- three chromosomes whose processing, merge and BAM orders differ; annotation, `file:` read groups, unaligned reads -/
 def cfg3 : Cfg := { chrs := [0, 1, 2], mchrs := [2, 0, 1], bchrs := [1, 2, 0], genedb := true, rg := .file, keepTmp := false,
-                    unmapped := true }
+                    unmapped := true, fromSaves := false }
 
 def ord3 : List Path := [.bamstat 1, .save 2, .groups 0, .processed 2, .trStat 0, .collected 0, .info, .lock, .multimap 1,
                          .rgSplit 2, .rgLock, .rgSplit 0]
@@ -220,9 +386,25 @@ theorem cfg3_wf : WF cfg3 := by
 -- the hypotheses of `resume_correct` are met by a concrete non-trivial input: 302 events, kill point 200
 example : WF cfg3 ∧ ord3.Nodup ∧ (cleanEvents fixed cfg3 ord3).length = 302 ∧ 2 ≤ 200 ∧
     verdict fixed cfg3 ord3 ord3 200 = .equal :=
-  ⟨cfg3_wf, by decide, by decide +kernel, by omega, resume_correct cfg3_wf ord3 ord3 (by decide) (by decide) 200 (by omega)⟩
+  ⟨cfg3_wf, by decide, by decide +kernel, by omega, resume_correct cfg3_wf rfl ord3 ord3 (by decide) (by decide) 200 (by omega)⟩
 
 -- and before `.params` is saved the resumed run does fail (the hypothesis `2 ≤ k` is needed)
 example : verdict fixed cfg3 ord3 ord3 1 = .fail := by decide +kernel
+
+
+-- the history clauses are met by concrete inputs: a dirty folder with two locks to remove (kill point 4 = right after
+-- `.params`), and save files with a stale `_processed` lock (one lock to remove, kill point 3)
+example : (lockList cfg1 leftover1).length + 2 ≤ 4 ∧ verdictFrom fixed cfg1 ord1 ord1 leftover1 4 = .equal :=
+  ⟨by decide, resume_correct_dirty_folder (cfg := cfg1) ⟨by decide, by decide, by decide, fun _ => Iff.rfl, fun _ => Iff.rfl⟩ rfl
+      ord1 ord1 (by decide) (by decide) leftover1 4 (by decide)⟩
+
+theorem saves1Stale_consistent : SavesConsistent cfgS saves1Stale := by
+  refine ⟨⟨by decide, ?_⟩, ?_⟩
+  · intro c hc; simp only [cfgS, cfg1, List.mem_cons, List.not_mem_nil, or_false] at hc; subst hc; exact ⟨by decide, by decide⟩
+  · intro c hc _; simp only [cfgS, cfg1, List.mem_cons, List.not_mem_nil, or_false] at hc; subst hc; exact ⟨by decide, by decide⟩
+
+example : (lockList cfgS saves1Stale).length + 2 ≤ 3 ∧ verdictFrom fixed cfgS ord1 ord1 saves1Stale 3 = .equal :=
+  ⟨by decide, resume_correct_read_assignments (cfg := cfgS) ⟨by decide, by decide, by decide, fun _ => Iff.rfl, fun _ => Iff.rfl⟩ rfl
+      ord1 ord1 (by decide) (by decide) saves1Stale saves1Stale_consistent 3 (by decide)⟩
 
 end IsoVerif.Props.C07
